@@ -18,7 +18,7 @@ class C01(Prop):
                 "M17.C01F.lich_roundtrip", "M17.C01F.lich_callback",
                 "M17.C01F.lsf_cost_zero", "M17.C01F.stream_cost_zero", "M17.C01F.packet_cost_zero", "M17.C01F.softAt_image",
                 "M17.C01G.sum_depuncture", "M17.C01G.sum_deinterleave", "M17.C01G.sum_randSoft",
-                "M17.C01G.lsf_cost_formula", "M17.C01G.packet_cost_formula", "M17.C01G.bert_cost_formula", "M17.C01G.stream_cost_formula",
+                "M17.C01G.lsf_cost_formula", "M17.C01G.packet_cost_formula", "M17.C01G.bert_cost_formula", "M17.C01G.stream_cost_formula", "M17.C01G.stream_slack_positions",
                 "M17.C13T.m17mod_lsf_decodes", "M17.C13T.m17mod_stream_decodes", "M17.C14T.modulator_lsf_decodes", "M17.C14T.modulator_stream_decodes"]
     level_text = ("Lean 4 frame-level theorems (M17.Props.C01F) about the decoder model Dec.step fed with ANY clean soft image (correct signs, "
                   "per-position magnitudes 1..7) of a frame built by the independent specification encoder Spec.Tx (convolutional code, puncture, "
